@@ -10,9 +10,9 @@ echo "|---|---|---|---|" >> $out.tmp
 for d in seeded/C*-*; do
   sid=$(basename $d); prop=${sid%%-*}
   [ -n "$1" ] && [ "$1" != "$prop" ] && [ "$1" != "$sid" ] && { grep "^| $sid " $out >> $out.tmp 2>/dev/null; continue; }
-  res=$(tools/try_mutant.sh $d/patch.diff $prop 2>&1)
+  res=$(timeout 2400 tools/try_mutant.sh $d/patch.diff $prop 2>&1); trc=$?
   keys=$(echo "$res" | grep VIOLATION | sed 's/.*# //' | sed 's/ (.*//' | sort -u | head -6 | tr '\n' ';')
-  if echo "$res" | grep -q "PATCH DOES NOT APPLY"; then det="patch no longer applies"; elif [ -n "$keys" ]; then det=yes; else det=NO; fi
+  if echo "$res" | grep -q "PATCH DOES NOT APPLY"; then det="patch no longer applies"; elif [ -n "$keys" ]; then det=yes; elif [ $trc -eq 124 ]; then det="NO (check did not finish in 40 min)"; elif echo "$res" | grep -q HARNESS; then det="harness error (exit 2)"; else det=NO; fi
   echo "| $sid | $prop | $det | $keys |" >> $out.tmp
   /venv/bin/python - "$d" "$det" "$keys" <<'PY'
 import json,sys
